@@ -130,7 +130,8 @@ fn check_confine(ctx: &mut Ctx, size: Size, before: &CornerRadii, after: &Corner
     }
     for (name, s, a, b) in side_pairs(size, after) {
         if a + b > s {
-            // mechanism key: a pair sum that saturated `u32` hides the real ratio of that side
+            // mechanism key: a pair sum above `u32::MAX` that is clamped hides the real ratio of that side
+            // (repaired defect: `saturating_add` in `confine`)
             let class = if saturates { "C18:rrect-confine-overflows-side:saturated-pair-sum" } else { "C18:rrect-confine-overflows-side" };
             ctx.expect(false, class, || format!("{} side {}: radii {} + {} after confine ({})", name, s, a, b, fmt_radii(after)));
         } else {
@@ -339,9 +340,9 @@ impl Module for M {
                 };
                 let w = val(rng);
                 let h = val(rng);
-                // radii: keep every pair sum within u32 (the code adds them with `saturating_add`;
-                // sums beyond u32::MAX are exercised by the corpus witness only)
-                let rmax: i64 = if big { (u32::MAX / 2) as i64 } else { 2 * smax };
+                // radii up to u32::MAX: pair sums beyond u32::MAX are part of the scope (the code adds
+                // them as u64 since the repair of the saturating sums)
+                let rmax: i64 = if big { u32::MAX as i64 } else { 2 * smax };
                 let mut r = [(0u32, 0u32); 4];
                 for k in 0..4 {
                     let v = |rng: &mut Rng| -> u32 {
